@@ -1693,6 +1693,11 @@ func main() {
 		maxW, nSecond = 16, 1000
 	}
 	runRound("widths", widthsUniverse(maxW, nSecond), func(emit func(pkg) bool) { genWidths(maxW, nSecond, emit) })
+	maxD := 24
+	if tier == "thorough" {
+		maxD = 48
+	}
+	runRound("depths", depthsUniverse(maxD), func(emit func(pkg) bool) { genDepths(maxD, emit) })
 	runRound("ids", fmt.Sprintf("action ids at the integer boundaries: every id of %d on a method, a signal and a property (alone; between two actions of the same kind with ids id-11 and id+11; on all three kinds at once) and every ordered pair of these ids on two methods of one interface", boundaryIDs), genIDs)
 	runTotal("ladders", "nesting ladders of depth 1..24 (Vec<, Map<str,, Tuple<, Tuple<int32,; closed and unterminated) in a struct member and in a method, repeated unterminated blocks", genLadders)
 	runTotal("damaged", "every prefix and every single-character deletion of 3 generated IDL texts", genDamaged)
@@ -1828,7 +1833,7 @@ func main() {
 		"rule": "every element of each family's stated universe is generated and judged. distinct_nontrivial = number of distinct (package abstraction, outcome class) pairs of the round-trip families " +
 			"(abstraction = interfaces / action kinds / id class / type shapes with atoms reduced to int/flt/bool/str/any/obj/unk and every name reduced to its lexical class) " +
 			"+ number of distinct blank-normalised token texts that ParseIDL ACCEPTED in the totality families (rejected texts are counted as trivial). " +
-			"Round-trip families: names, actions, packages, emitted, types, pairs, widths (structs and tuples of 0..N members in every position, parameter / action / interface counts from 0), ids (action ids at the integer boundaries). " +
+			"Round-trip families: names, actions, packages, emitted, types, pairs, depths (containers nested 1..24, thorough 48, deep in every position), widths (structs and tuples of 0..N members in every position, parameter / action / interface counts from 0), ids (action ids at the integer boundaries). " +
 			"Totality families (ladders, damaged, pkgnames, identshapes, numerals, numeral-pairs, nametokens, tokens) are judged by: ParseIDL returns meta-objects or an error, never a panic and never both; " +
 			"in pkgnames / identshapes / nametokens (identifier-shape dimension: names of every lexical shape of the package-name and identifier tokens, as package name and in every identifier role) ParsePackage is called directly too and must return a package or an error, never a panic, never neither; " +
 			"so it is in numerals / numeral-pairs (numeric-literal dimension: every numeral of the pool in the enum-constant position and in the //uid: position of every comment the grammar admits, alone and in otherwise valid declarations), " +
